@@ -171,8 +171,8 @@ def malformed_test(rng, name):
 
 class C02(Prop):
     id = "C02"
-    props = None
-    coq_files = ("Base", "C03_Consts", "C03_Model", "C03_Spec", "C03_Proofs", "C02_Model")
+    props = "C02_Props"
+    coq_files = ("Base", "C03_Consts", "C03_Model", "C03_Spec", "C03_Proofs", "C02_Model", "C02_Spec", "C02_Proofs", "C02_Props")
     models = ("C02_Model",)
     packages = {"cc": "internal/app/connectconformance"}
     kinds = {"c02.expect": "cc", "c02.live": "cc"}
